@@ -375,6 +375,12 @@ def check_guard(R, cls, meth, raise_foreign):
             if lab == 'e':
                 return None
             return True if raise_foreign else None
+        if matched is False and delegation(F, node, meth):
+            # handing the foreign transaction to the wrapped storage is not
+            # an effect of ours: it rejects (raises) or ignores it itself
+            if raise_foreign and lab != 'e':
+                return PRUNE
+            return matched
         if matched is False and has_effect(F, node):
             return Violation('%s has an effect although the caller\'s '
                              'transaction is not the one being committed' %
